@@ -743,6 +743,31 @@ def _expr_of(stmts):
         if b is None:
             return None
         return ast.IfExp(test=st.test, body=a, orelse=b)
+    # a local (re)binding read once afterwards (or call-free): read it through
+    tgt = val = None
+    if isinstance(st, ast.Assign) and len(st.targets) == 1 and \
+            isinstance(st.targets[0], ast.Name):
+        tgt, val = st.targets[0].id, st.value
+    elif isinstance(st, ast.AugAssign) and isinstance(st.target, ast.Name) and \
+            isinstance(st.op, ast.Add):
+        tgt = st.target.id
+        val = ast.BinOp(left=ast.Name(id=tgt, ctx=ast.Load()), op=ast.Add(), right=st.value)
+    if tgt is not None:
+        rest = list(stmts[1:])
+        loads = sum(1 for r in rest for n in ast.walk(r)
+                    if isinstance(n, ast.Name) and n.id == tgt and isinstance(n.ctx, ast.Load))
+        stores = any(isinstance(n, ast.Name) and n.id == tgt and
+                     isinstance(n.ctx, ast.Store) for r in rest for n in ast.walk(r))
+        if stores or (loads > 1 and not _call_free(val)):
+            return None
+        if not all(isinstance(r, (ast.Return, ast.If)) for r in rest):
+            return None
+        if loads == 1 and not _call_free(val):
+            # the single read must be the first thing evaluated after the binding
+            if not (len(rest) == 1 and isinstance(rest[0], ast.Return)):
+                return None
+        sub = _Inline(tgt, val)
+        return _expr_of([sub.visit(clone(r)) for r in rest])
     return None
 
 
@@ -1006,9 +1031,125 @@ class _Positional(ast.NodeTransformer):
         return node
 
 
-class _Spell(ast.NodeTransformer):
-    """[*X] is list(X); (*X,) is tuple(X)"""
+def _const_tables(func):
+    """literal tuples/lists bound exactly once at module level, and in the
+    enclosing class body ({name: value}, {attr: value})"""
+    mod = _module_of(func)
+    modc, clsc = {}, {}
+
+    def collect(body, out):
+        seen = {}
+        for st in body:
+            if isinstance(st, ast.Assign) and len(st.targets) == 1 and \
+                    isinstance(st.targets[0], ast.Name):
+                seen.setdefault(st.targets[0].id, []).append(st.value)
+            elif isinstance(st, (ast.AugAssign, ast.AnnAssign)) and \
+                    isinstance(st.target, ast.Name):
+                seen.setdefault(st.target.id, []).append(None)
+        for k, vs in seen.items():
+            if len(vs) == 1 and isinstance(vs[0], (ast.Tuple, ast.List)) and \
+                    1 <= len(vs[0].elts) <= 8 and all(
+                        isinstance(e, ast.Constant) for e in vs[0].elts):
+                out[k] = vs[0]
+    if mod is not None:
+        collect(mod.body, modc)
+    p = getattr(func, 'parent', None)
+    while p is not None and not isinstance(p, ast.ClassDef):
+        p = getattr(p, 'parent', None)
+    if p is not None:
+        collect(p.body, clsc)
+    return modc, clsc
+
+
+class _ConstIter(ast.NodeTransformer):
+    """an iteration source that is a module / class constant tuple of literals
+    is that tuple"""
+
+    def __init__(self, func, orig=None):
+        self.modc, self.clsc = _const_tables(orig if orig is not None else func)
+        self.local = _names(func, ast.Store) | {a.arg for a in func.args.args}
+        self.changed = False
+
+    def lit(self, it):
+        if isinstance(it, ast.Name) and it.id in self.modc and it.id not in self.local:
+            return self.modc[it.id]
+        if isinstance(it, ast.Attribute) and isinstance(it.value, ast.Name) and \
+                it.value.id in ('self', 'cls') and it.attr in self.clsc:
+            return self.clsc[it.attr]
+        return None
+
+    def visit_For(self, node):
+        self.generic_visit(node)
+        v = self.lit(node.iter)
+        if v is not None:
+            node.iter = ast.copy_location(clone(v), node.iter)
+            self.changed = True
+        return node
+
+    def visit_comprehension(self, node):
+        self.generic_visit(node)
+        v = self.lit(node.iter)
+        if v is not None:
+            node.iter = ast.copy_location(clone(v), node.iter)
+            self.changed = True
+        return node
+
+
+class _NameSub(ast.NodeTransformer):
+    def __init__(self, name, value):
+        self.name, self.value = name, value
+
+    def visit_Name(self, node):
+        if node.id == self.name and isinstance(node.ctx, ast.Load):
+            return clone(self.value)
+        return node
+
+
+class _UnrollComp(ast.NodeTransformer):
+    """a comprehension over a literal display (one generator, no filter, a
+    plain name as target) is the display of its element per item"""
     changed = False
+
+    def _do(self, node):
+        self.generic_visit(node)
+        if len(node.generators) != 1:
+            return node
+        g = node.generators[0]
+        if g.ifs or g.is_async or not isinstance(g.target, ast.Name) or \
+                not isinstance(g.iter, (ast.Tuple, ast.List)) or \
+                not 1 <= len(g.iter.elts) <= 8 or \
+                not all(isinstance(e, ast.Constant) for e in g.iter.elts):
+            return node
+        inner = node.key if isinstance(node, ast.DictComp) else node.elt
+        if any(isinstance(x, (ast.Lambda,) + COMPS) for x in ast.walk(inner)):
+            return node
+        self.changed = True
+        if isinstance(node, ast.DictComp):
+            ks = [_NameSub(g.target.id, e).visit(clone(node.key)) for e in g.iter.elts]
+            vs = [_NameSub(g.target.id, e).visit(clone(node.value)) for e in g.iter.elts]
+            return ast.copy_location(ast.Dict(keys=ks, values=vs), node)
+        elts = [_NameSub(g.target.id, e).visit(clone(node.elt)) for e in g.iter.elts]
+        if isinstance(node, ast.SetComp):
+            return ast.copy_location(ast.Set(elts=elts), node)
+        return ast.copy_location(ast.List(elts=elts, ctx=ast.Load()), node)
+
+    visit_ListComp = visit_DictComp = visit_SetComp = _do
+
+
+class _Spell(ast.NodeTransformer):
+    """[*X] is list(X); (*X,) is tuple(X); getattr(x, 'lit') is x.lit"""
+    changed = False
+
+    def visit_Call(self, node):
+        self.generic_visit(node)
+        if isinstance(node.func, ast.Name) and node.func.id == 'getattr' and \
+                len(node.args) == 2 and not node.keywords and \
+                isinstance(node.args[1], ast.Constant) and \
+                isinstance(node.args[1].value, str) and node.args[1].value.isidentifier():
+            self.changed = True
+            return ast.copy_location(ast.Attribute(
+                value=node.args[0], attr=node.args[1].value, ctx=ast.Load()), node)
+        return node
 
     def _one_star(self, node, name):
         self.generic_visit(node)
@@ -1095,6 +1236,12 @@ def normalize(func):
             new.body[k] = pz.visit(st)
         if pz.changed:
             changed = True
+    ci = _ConstIter(new, func)
+    uc = _UnrollComp()
+    for k, st in enumerate(new.body):
+        new.body[k] = uc.visit(ci.visit(st))
+    if ci.changed or uc.changed:
+        changed = True
     sa = _SetAttr()
     for k, st in enumerate(new.body):
         new.body[k] = sa.visit(st)
